@@ -11,6 +11,7 @@ import (
 	"os"
 	"os/exec"
 	"path/filepath"
+	"runtime"
 	"sync"
 	"testing"
 	"time"
@@ -102,6 +103,36 @@ func (o *wOutput) fail(format string, args ...any) {
 	if o.Infra == "" {
 		o.Infra = fmt.Sprintf(format, args...)
 	}
+}
+
+// scaledDeadline is vr.Deadline made robust against a loaded machine: the
+// budgets are sized for an idle 16-core box; when the 1-minute load average
+// exceeds the number of CPUs the same enumeration needs proportionally longer,
+// so the budget is stretched by load/CPUs (never beyond what the INDEX timeouts
+// of 15 min / 45 min leave room for). An explicit VERIF_BUDGET_S is taken as
+// is. The budget only decides how much is explored before the run reports
+// exhaustive=false; it is never part of an oracle.
+func scaledDeadline(quick, thorough time.Duration) time.Time {
+	d := time.Until(vr.Deadline(quick, thorough))
+	if os.Getenv("VERIF_BUDGET_S") != "" {
+		return time.Now().Add(d)
+	}
+	limit := 8 * time.Minute
+	if vr.Thorough() {
+		limit = 25 * time.Minute
+	}
+	if data, err := os.ReadFile("/proc/loadavg"); err == nil {
+		var load float64
+		if _, err := fmt.Sscan(string(data), &load); err == nil {
+			if scale := load / float64(runtime.NumCPU()); scale > 1 {
+				d = time.Duration(float64(d) * scale)
+			}
+		}
+	}
+	if d > limit {
+		d = limit
+	}
+	return time.Now().Add(d)
 }
 
 var workerFuncs = map[string]func(t *testing.T, job *wJob, out *wOutput){}
